@@ -117,6 +117,12 @@ def fixed_cases(rules):
     ]
     return c
 
+# what the PROPERTY requires of the fixed programs, independently of the rules read from the source: True = must compile,
+# False = must be rejected (the rule model predicts rustc; this table is the oracle when the two part ways)
+MUST_REJECT = {'ev_recvmut_imm', 'ev_trecvmut_imm', 'ev_mutate_imm', 'ev_recvmut_spawn', 'c_getmut_imm', 'c_fetch_mut_imm_handler',
+               'c_single_mut_imm_handler', 'c_recv_query_mut_imm', 's_world_send', 's_world_sync', 's_world_thread', 's_world_ref_thread',
+               's_fetcher_send_notsync', 's_fetcher_sync_notsync', 's_iter_send_notsync', 's_iter_sync_notsync'}
+
 def check_batch(dirpath, cases, cx):
     """Writes one crate with every case in its own module; returns {case name: [error messages]}."""
     os.makedirs(dirpath + '/src', exist_ok=True)
@@ -205,6 +211,17 @@ def run(tier, seed, cx):
     bad_forb = [(n, b) for n, b, _ in forbidden if n not in errs_f]
     if other_p or (other_f and not errs_f):
         viol.append((dict(engine='h_compile', broken='compile batch did not type-check for an unrelated reason', detail=(other_p + other_f)[:5]), False))
+    # the fixed programs against the property's own requirement (this is what finds the failing input when a gate in the
+    # source was loosened: the regenerated rules then predict "compiles", rustc agrees, and only the requirement objects)
+    fixed_names = {c[0] for c in fixed_cases(rules)}
+    compiled = {n for n, b, _ in permitted if n not in errs_p} | {n for n, b, _ in forbidden if n not in errs_f}
+    body = {n: b for n, b, _ in cases}
+    wrong_ok = sorted(n for n in fixed_names if n in MUST_REJECT and n in compiled)
+    wrong_rej = sorted(n for n in fixed_names if n not in MUST_REJECT and n not in compiled)
+    if wrong_ok and not (other_p or (other_f and not errs_f)):
+        viol.append((dict(engine='h_compile', kind='a program the property forbids compiles', case=wrong_ok[0], program=PRELUDE + body[wrong_ok[0]], all_such_cases=wrong_ok), True))
+    elif wrong_rej and not (other_p or (other_f and not errs_f)):
+        viol.append((dict(engine='h_compile', kind='a program the property permits is rejected', case=wrong_rej[0], program=PRELUDE + body[wrong_rej[0]], all_such_cases=wrong_rej), True))
     for n, b in bad_forb[:1]:
         viol.append((dict(engine='h_compile', kind='forbidden program compiles', case=n, program=PRELUDE + b,
                           all_such_cases=[x[0] for x in bad_forb][:40]), True))
